@@ -98,13 +98,34 @@ NONTRIVIAL = {"num:subnormal", "num:exp-large", "num:exp-small", "num:fraction",
               "str:quote-backslash", "key-str:control", "key-str:quote-backslash", "int:big", "key-str:astral"}
 
 
-def check_value(v):
+PRE_USES = ["serialize", "encoder-ascii-spaced", "encoder-indent", "encoder-unsorted-ascii"]
+
+
+def other_use(v, how):
+    """The canonicalization module's other public entry points, used with non-canonical settings on the same value before
+    canonicalize() is asked: whatever they return (or raise) is not judged, but nothing of it may show up in the canonical form."""
+    from stix2.canonicalization import Canonicalize as C
+    if how == "serialize":
+        core.guarded(C.serialize, v, utf8=False)
+    elif how == "encoder-ascii-spaced":
+        core.guarded(lambda: C.JSONEncoder(ensure_ascii=True, separators=(", ", ": ")).encode(v))
+    elif how == "encoder-indent":
+        core.guarded(lambda: C.JSONEncoder(indent=2, separators=(",", " : "), sort_keys=False).encode(v))
+    elif how == "encoder-unsorted-ascii":
+        core.guarded(lambda: "".join(C.JSONEncoder(ensure_ascii=True, sort_keys=False).iterencode(v)))
+    else:
+        raise core.HarnessError("unknown use %r" % how)
+
+
+def check_value(v, pre=None):
     from stix2.canonicalization.Canonicalize import canonicalize
     fails = []
     try:
         exp = rfc8785.canon(v)
     except OverflowError:
         return None  # |int| beyond double range: outside the RFC 8785 domain
+    if pre:
+        other_use(v, pre)
     out, exc = core.guarded(canonicalize, v, utf8=False)
     if exc is not None:
         return [("crash:%s" % type(exc).__name__, "canonicalize raised %s on %s" % (core.fmt_exc(exc), core.short(enc(v))))]
@@ -164,7 +185,7 @@ def check_case(case):
     v = dec(case["v"])
     if case.get("refuse"):
         return check_refusal(v)
-    return check_value(v) or []
+    return check_value(v, case.get("pre")) or []
 
 
 # ---- strategies -----------------------------------------------------------
@@ -201,7 +222,8 @@ def run(ctx):
     rfc8785.selftest()
     ctx.rule = ("JSON values by st.recursive (depth<=~6): floats from raw 64-bit patterns + boundary catalogue (1e21/1e-7 switch "
                 "points, subnormals, max double), ints to +-2^70, strings/keys over BMP, astral and control characters, key sets "
-                "where UTF-16 and code-point order disagree; each value also in three other insertion orders. Non-trivial = "
+                "where UTF-16 and code-point order disagree; each value also in three other insertion orders; 4 of 7 values are first put through the "
+                "module's other public entry points (serialize(), JSONEncoder with ensure_ascii / spaced separators / indent / unsorted). Non-trivial = "
                 "contains a float needing exponent/shortest-digit logic or fraction, an int beyond 2^53, an escaped character, or "
                 "a key set whose two orders differ; distinct = distinct tagged value.")
     ctx.assumptions = ["oracle/rfc8785.py is a correct reading of RFC 8785 (self-tested on the RFC's Appendix B vectors, 3.2.2 and 3.2.3 examples)",
@@ -215,17 +237,20 @@ def run(ctx):
         ctx.handle(case, check_case(case))
     ctx.collect_only = False
 
-    def body(v):
+    def body(args):
+        v, pre = args
         case = {"v": enc(v)}
-        fails = check_value(v)
+        if pre:
+            case["pre"] = pre
+        fails = check_value(v, pre)
         if fails is None:
             ctx.exclude("int-beyond-double-range")
             return
         f = features(v)
-        ctx.note(case, bool(f & NONTRIVIAL), sorted(f))
+        ctx.note(case, bool(f & NONTRIVIAL), sorted(f) + (["after-other-use:" + pre] if pre else []))
         ctx.handle(case, fails)
 
-    core.run_given(ctx, json_value, body, ctx.n(5000, 40000), label="c16-values")
+    core.run_given(ctx, st.tuples(json_value, st.sampled_from([None, None, None] + PRE_USES)), body, ctx.n(5000, 40000), label="c16-values")
 
     # single numbers, cheap and dense: every exponent range
     def body_num(v):
